@@ -2,6 +2,7 @@ package spec
 
 import (
 	"go/ast"
+	"go/types"
 	"strings"
 
 	"lndlint/internal/an"
@@ -306,6 +307,49 @@ func runC11(r *an.Run) {
 				o.Site("%s ; %s", loopFlush[0].String(), adds[0].String())
 				if !cw.PostDominated(loopFlush[0], adds) {
 					o.FailAt(cw.ID+"#count-after-flush", adds[0].Where(), "Conn.Write can return after a Flush without adding the flushed bytes to its count")
+				}
+			}
+		})
+
+	r.Obl("frames-read-in-full", "ROLE",
+		"every fixed-size piece of the protocol is read with io.ReadFull from the connection: the three handshake acts (actTwo in Dial; actOne and actThree in the listener's handshake), the 18-byte encrypted length header into nextCipherHeader and the body into the caller's buffer; no function of the package calls Read directly on a reader or connection it was handed",
+		"a plain Read may return fewer bytes than the frame: a header or act that arrives in two TCP segments is then decrypted from a half-filled buffer and the connection fails although nothing was altered", 5,
+		func(o *an.Obl) {
+			want := map[string][]string{
+				"brontide.Dial":                 {"[50]byte[:]"},
+				"brontide.Listener.doHandshake": {"[50]byte[:]", "[66]byte[:]"},
+				"brontide.Machine.ReadBody":     {"$p1"},
+				"brontide.Machine.ReadHeader":   {"$recv.nextCipherHeader[:]"},
+			}
+			got := map[string][]string{}
+			for _, f := range p.Funcs(false, "brontide") {
+				for _, s := range f.Calls(an.CalleeIs("io.ReadFull"), false) {
+					a := f.ArgCanon(s)
+					o.Site("%s into %s", s.String(), a[1])
+					got[f.Root().ID] = append(got[f.Root().ID], strings.TrimPrefix(a[1], "$v:"))
+				}
+				// direct Read on a handed-in reader / connection
+				for _, s := range f.AllCalls(false) {
+					c := s.Node.(*ast.CallExpr)
+					sel, ok := c.Fun.(*ast.SelectorExpr)
+					if !ok || sel.Sel.Name != "Read" {
+						continue
+					}
+					rc := f.Canon(sel.X)
+					if strings.HasPrefix(rc, "$p") || strings.HasPrefix(rc, "$lit.p") || strings.HasSuffix(rc, ".conn") {
+						if _, isIface := f.Info().TypeOf(sel.X).Underlying().(*types.Interface); isIface {
+							o.FailAt(f.ID+"#direct-read", s.Where(), "%s reads from %s with a plain Read; a short read leaves the frame half filled", f.ID, rc)
+						}
+					}
+				}
+			}
+			for fn, bufs := range want {
+				g := append([]string{}, got[fn]...)
+				sortStrings(g)
+				w := append([]string{}, bufs...)
+				sortStrings(w)
+				if strings.Join(g, ",") != strings.Join(w, ",") {
+					o.FailAt(fn+"#read-full", "", "%s reads %v with io.ReadFull, expected %v", fn, g, w)
 				}
 			}
 		})
